@@ -3,8 +3,8 @@ add("C03", "checks/c03_match.c", ["default-plain", "default-asan"], ["default-pl
     "SCPI_Input dispatch with SCPI_CommandNumbers and two SCPI_IsCmd inside the handler) over (pattern, header) pairs, each pair decided "
     "by the reference matcher kit/ref_match.c. Patterns: every pattern of <= 3 keywords (thorough: <= 4) over {ALPHa,BETa,GAMma,GAMMARay,"
     "VOLTage,UP} x {mandatory,[:optional]} x {plain,'#'} x {command,'?'} that satisfies the precondition (the others are counted in "
-    "patterns.skipped_ambiguous and only tallied), 69 patterns harvested from libscpi/test/*.c and examples/common/scpi-def.c (+3 "
-    "trailing-optional-suffix variants), 13 common (*) patterns. Headers per pattern: the full spelling grid (each keyword absent/short/"
+    "patterns.skipped_ambiguous and only tallied), the 63 compound patterns harvested from libscpi/test/*.c and examples/common/scpi-def.c "
+    "(all but the keyword-less \"?\"; +3 trailing-optional-suffix variants) and the 13 common (*) patterns found there. Headers per pattern: the full spelling grid (each keyword absent/short/"
     "long/short+digits/long+digits) x {upper,lower} x {no colon, leading colon} x {'?' as pattern, flipped} + mixed case, and every "
     "single-deviation near miss of every valid spelling (long-1 letter, short+-1 letter, long+1 letter, letter after digits, digits only, "
     "other keyword, empty mnemonic, inner '?', '*' prefix, inserted / duplicated mnemonic, swapped neighbours) in two modifier "
@@ -12,13 +12,15 @@ add("C03", "checks/c03_match.c", ["default-plain", "default-asan"], ["default-pl
     "keywords, all harvested and common ones and a seed-chosen 1/16 (4 keywords: 1/512) of the rest. distinct_nontrivial = distinct "
     "accepted (pattern, header) pairs (thorough: a 1/16 subsample, lower bound)",
     extra_sources=["kit/ref_match.c"],
-    exhaustive=dict(quick=True, thorough=True),
+    exhaustive=dict(quick=False, thorough=True),
     technique="differential runtime monitor: real matchCommand / SCPI_Match / SCPI_Input dispatch + SCPI_CommandNumbers + SCPI_IsCmd against an "
               "independent slot-assignment reference matcher over an exhaustive bounded enumeration of patterns and headers; exact-size heap "
               "header and numbers buffers under ASan+UBSan, guard cells in the -O2 build",
-    level_text="exploration by execution, exhaustive within the stated bounds: all patterns of the grammar up to 3 (thorough 4) keywords over a "
-               "6-keyword vocabulary and the shipped patterns, against the spelling grid and all single-deviation near misses of up to 5 "
-               "mnemonics; headers with two simultaneous deviations, other vocabularies and longer patterns are not executed",
+    level_text="exploration by execution over an enumerated, bounded domain: thorough runs every precondition-satisfying pattern of the grammar up "
+               "to 4 keywords over a 6-keyword vocabulary (quick: up to 3) plus the shipped patterns, each against its complete spelling grid "
+               "(every keyword absent/short/long/with digits) and every single-deviation near miss, headers of up to 5 mnemonics; letter case, "
+               "leading colon and '?' are crossed in full for <= 3 keywords and sampled (2 of 9 / 2 of 12 combinations per header) for 4-keyword "
+               "grids and near misses; headers with two simultaneous deviations, other vocabularies and longer patterns are not executed",
     level_note="trusted: kit/ref_match.c (250 lines, cross-checked against its own assignment counter: an unambiguous pattern never has two "
                "accepting assignments), the sanitizer runtimes; held means every executed pair agreed on acceptance and reported numbers",
     assumptions=["header length >= 1 (the lexer never produces an empty header; SCPI_Match(p, \"\", 0) is outside the domain)",
